@@ -45,7 +45,7 @@ bv256 __CPROVER_uninterpreted_tomn(bv256); bv256 __CPROVER_uninterpreted_mmn(bv2
 	AY6(GX(s), GY(s), GZ(s), MX(t, P), MY(t, P), MZ(t, P)), \
 	AZ6(GX(s), GY(s), GZ(s), MX(t, P), MY(t, P), MZ(t, P)))
 /* ghost: recording of the core verification call made by the DER-level wrappers */
-int G_dv_last; unsigned G_dv_calls; const void *G_dv_key; const void *G_dv_dgst; uint8_t G_dv_sigbyte;
+int G_dv_last; unsigned G_dv_calls; size_t G_dv_key; size_t G_dv_dgst; uint8_t G_dv_sigbyte;
 /* ghost: nonce handed out by the replaced sm2_z256_rand_range */
 #define G_k_drawn verif_k_drawn
 #define G_rand_calls verif_rand_calls
@@ -145,7 +145,7 @@ REQUIRES(RD_OK(key, sizeof(*key)) && RD_OK(dgst, 32) && RD_OK(sig, sizeof(*sig))
 #ifdef CONTRACT_DO_VERIFY_RECORDING
 ASSIGNS(G_dv_last, G_dv_calls, G_dv_key, G_dv_dgst, G_dv_sigbyte)
 ENSURES(RET == 1 || RET == -1)
-ENSURES(G_dv_last == RET && G_dv_calls == OLD(G_dv_calls) + 1 && G_dv_key == (const void *)key && G_dv_dgst == (const void *)dgst
+ENSURES(G_dv_last == RET && G_dv_calls == OLD(G_dv_calls) + 1 && G_dv_key == (size_t)key && G_dv_dgst == (size_t)dgst
 	&& (G_sk2 >= 64 || G_dv_sigbyte == ((const uint8_t *)sig)[G_sk2]))
 #else
 ASSIGNS(OBJ_WHOLE(G_mg_k), G_mg_out, G_mg_calls, OBJ_WHOLE(G_pm_k), G_pm_in, G_pm_out, G_pm_calls, G_pa_a, G_pa_b, G_pa_out, G_pa_calls, G_gx_in, OBJ_WHOLE(G_gx_x), G_gx_calls)
@@ -158,7 +158,7 @@ REQUIRES(RD_OK(point_table, 16 * sizeof(SM2_Z256_POINT)) && RD_OK(dgst, 32) && R
 #ifdef CONTRACT_DO_VERIFY_RECORDING
 ASSIGNS(G_dv_last, G_dv_calls, G_dv_key, G_dv_dgst, G_dv_sigbyte)
 ENSURES(RET == 1 || RET == -1)
-ENSURES(G_dv_last == RET && G_dv_calls == OLD(G_dv_calls) + 1 && G_dv_key == (const void *)point_table && G_dv_dgst == (const void *)dgst
+ENSURES(G_dv_last == RET && G_dv_calls == OLD(G_dv_calls) + 1 && G_dv_key == (size_t)point_table && G_dv_dgst == (size_t)dgst
 	&& (G_sk2 >= 64 || G_dv_sigbyte == ((const uint8_t *)sig)[G_sk2]))
 #else
 ASSIGNS(OBJ_WHOLE(G_mg_k), G_mg_out, G_mg_calls, OBJ_WHOLE(G_pm_k), G_pm_in, G_pm_out, G_pm_calls, G_pa_a, G_pa_b, G_pa_out, G_pa_calls, G_gx_in, OBJ_WHOLE(G_gx_x), G_gx_calls)
@@ -192,7 +192,7 @@ int sm2_verify(const SM2_KEY *key, const uint8_t dgst[32], const uint8_t *sigbuf
 REQUIRES((key == NULL || RD_OK(key, sizeof(*key))) && (dgst == NULL || RD_OK(dgst, 32)) && siglen <= 4096 && (sigbuf == NULL || RD_OK(sigbuf, siglen)))
 ASSIGNS(G_dv_last, G_dv_calls, G_dv_key, G_dv_dgst, G_dv_sigbyte)
 ENSURES(RET == 1 || RET == -1)
-ENSURES(RET == 1 IMPLIES G_dv_calls == OLD(G_dv_calls) + 1 && G_dv_last == 1 && G_dv_key == (const void *)key && G_dv_dgst == (const void *)dgst)
+ENSURES(RET == 1 IMPLIES G_dv_calls == OLD(G_dv_calls) + 1 && G_dv_last == 1 && G_dv_key == (size_t)key && G_dv_dgst == (size_t)dgst)
 ;
 
 /* Z = SM3(ENTL || ID || a || b || Gx || Gy || Px || Py): C01 "the ID bound into the digest is exactly the idlen bytes
@@ -219,14 +219,14 @@ int sm2_verify_finish(SM2_VERIFY_CTX *ctx, const uint8_t *sigbuf, size_t siglen)
 REQUIRES((ctx == NULL || RW_OK(ctx, sizeof(*ctx))) && siglen <= 4096 && (sigbuf == NULL || RD_OK(sigbuf, siglen)))
 ASSIGNS(ctx != NULL: OBJ_UPTO((uint8_t *)ctx, sizeof(*ctx)); G_dv_last, G_dv_calls, G_dv_key, G_dv_dgst, G_dv_sigbyte, G_fin_fed, G_fin_tbyte, G_fin_tseen, G_fin_calls)
 ENSURES(RET == 1 || RET == -1)
-ENSURES(RET == 1 IMPLIES G_dv_calls == OLD(G_dv_calls) + 1 && G_dv_last == 1 && G_dv_key == (const void *)ctx->public_point_table)
+ENSURES(RET == 1 IMPLIES G_dv_calls == OLD(G_dv_calls) + 1 && G_dv_last == 1 && G_dv_key == (size_t)ctx->public_point_table)
 /* the digest verified is the one of the context's stream, finished exactly once */
 ENSURES(RET == 1 IMPLIES G_fin_calls == OLD(G_fin_calls) + 1 && G_fin_fed == OLD(SM3_FED(&ctx->sm3_ctx)))
 ;
 
 /* precomputed nonces are consumed once each: the slot used is num_pre_comp-1 (after a refill when empty) and the counter drops by one */
 #ifdef VERIF_CBMC
-const void *G_fs_precomp; unsigned G_fs_calls; int G_fs_last; unsigned G_pc_calls; int G_pc_last;
+size_t G_fs_precomp; unsigned G_fs_calls; int G_fs_last; unsigned G_pc_calls; int G_pc_last;
 #endif
 int sm2_fast_sign_pre_compute(SM2_SIGN_PRE_COMP pre_comp[32])
 REQUIRES(WR_OK(pre_comp, 32 * sizeof(SM2_SIGN_PRE_COMP)))
@@ -274,7 +274,7 @@ int sm2_fast_sign(const sm2_z256_t fast_private, SM2_SIGN_PRE_COMP *pre_comp, co
 REQUIRES(RD_OK(fast_private, 32) && RD_OK(pre_comp, sizeof(*pre_comp)) && RD_OK(dgst, 32) && WR_OK(sig, sizeof(*sig)))
 ASSIGNS(OBJ_UPTO((uint8_t *)sig, sizeof(*sig)), G_fs_precomp, G_fs_calls, G_fs_last)
 ENSURES(RET == 1 || RET == -1)
-ENSURES(G_fs_precomp == (const void *)pre_comp && G_fs_calls == OLD(G_fs_calls) + 1 && G_fs_last == RET)
+ENSURES(G_fs_precomp == (size_t)pre_comp && G_fs_calls == OLD(G_fs_calls) + 1 && G_fs_last == RET)
 ;
 #endif
 
@@ -284,7 +284,7 @@ ASSIGNS(ctx != NULL: OBJ_UPTO((uint8_t *)ctx, sizeof(*ctx)); sig != NULL: OBJ_UP
 	G_fs_precomp, G_fs_calls, G_fs_last, G_pc_calls, G_pc_last, G_fin_fed, G_fin_tbyte, G_fin_tseen, G_fin_calls)
 ENSURES(RET == 1 || RET == -1)
 ENSURES(RET == 1 IMPLIES ctx->num_pre_comp < SM2_SIGN_PRE_COMP_COUNT && *siglen >= 8 && *siglen <= SM2_MAX_SIGNATURE_SIZE)
-ENSURES(RET == 1 IMPLIES G_fs_calls == OLD(G_fs_calls) + 1 && G_fs_last == 1 && G_fs_precomp == (const void *)&ctx->pre_comp[ctx->num_pre_comp])
+ENSURES(RET == 1 IMPLIES G_fs_calls == OLD(G_fs_calls) + 1 && G_fs_last == 1 && G_fs_precomp == (size_t)&ctx->pre_comp[ctx->num_pre_comp])
 /* not exhausted: the next unused slot, no refill; exhausted: exactly one successful refill, then slot 31 */
 ENSURES((RET == 1 && OLD(ctx->num_pre_comp) > 0) IMPLIES ctx->num_pre_comp == OLD(ctx->num_pre_comp) - 1 && G_pc_calls == OLD(G_pc_calls))
 ENSURES((RET == 1 && OLD(ctx->num_pre_comp) == 0) IMPLIES ctx->num_pre_comp == SM2_SIGN_PRE_COMP_COUNT - 1 && G_pc_calls == OLD(G_pc_calls) + 1 && G_pc_last == 1)
